@@ -8,7 +8,7 @@ body, generic over the scalar class `Gwcs.ANum` (instances: Float for execution,
 
 Supported: assignments (names / tuple unpacking), augmented assignments (rebinding), + - * / and
 `** <int literal>`, unary minus, the listed np.* calls, `np.broadcast_arrays` (identity per element), `PARAM[0]` for declared parameter triples,
-calls to other whitelisted evaluates, `return` of an expression or tuple.  `if isinstance(.., Quantity)`
+calls to other whitelisted evaluates, `for` over a literal tuple with a straight-line body (unrolled), `return` of an expression or tuple.  `if isinstance(.., Quantity)`
 takes the plain-number (else) branch; an `if` whose body only raises is skipped.  Both are listed in
 the report so nothing is dropped silently.
 """
@@ -126,6 +126,13 @@ class Tr:
                     self.block(s.orelse, lines)
                 else:
                     self.bad(s, "conditional: if %s" % src)
+            elif (isinstance(s, ast.For) and isinstance(s.iter, ast.Tuple) and not s.orelse and len(s.iter.elts) <= 8
+                  and all(isinstance(b, (ast.Assign, ast.AugAssign)) for b in s.body)):
+                # a loop over a literal tuple: unrolled (each round binds the loop variables, then runs the straight-line body)
+                self.notes.append("%s:%d for-loop over a literal tuple of %d items unrolled" % (self.fname, s.lineno, len(s.iter.elts)))
+                for elt in s.iter.elts:
+                    lines.append("  let %s := %s" % (self.target(s.target), self.expr(elt)))
+                    self.block(s.body, lines)
             elif isinstance(s, ast.Return):
                 lines.append("  %s" % self.expr(s.value))
                 return True
